@@ -251,6 +251,25 @@ impl CacheRead {
                 // Write the cache entry to a tempfile and then atomically
                 // move it to its final location so that other rustc invocations
                 // happening in parallel don't see a partially-written file.
+                // An output that is not a regular file (`-o /dev/null`) is written to,
+                // like the compiler does, never replaced by a file.
+                let special = fs::metadata(&path)
+                    .map(|m| !m.file_type().is_file() && !m.file_type().is_dir())
+                    .unwrap_or(false);
+                if special {
+                    let mut out = fs::OpenOptions::new().write(true).open(&path)?;
+                    match (self.get_object(&key, &mut out), optional) {
+                        (Ok(_), _) => continue,
+                        (Err(e), false) => return Err(e),
+                        // as below: stored but unreadable is corrupt, not absent
+                        (Err(e), true) => {
+                            if self.zip.file_names().any(|n| n == key) {
+                                return Err(e);
+                            }
+                            continue;
+                        }
+                    }
+                }
                 let mut tmp = NamedTempFile::new_in(dir)?;
                 match (self.get_object(&key, &mut tmp), optional) {
                     (Ok(mode), _) => {
